@@ -1,10 +1,23 @@
 // Kani proof harnesses for aeron-rs; compiled into the crate through the cfg(kani) hook in src/lib.rs.
+// (c19 lives in c19_builder.rs, a child module of channel_uri_string_builder.rs; conductor harnesses (c09-c12) in
+// conductor.rs, a child module of client_conductor.rs - both need private fields.)
 #![allow(dead_code, unused_imports, unused_variables, unused_mut, clippy::all)]
 
 pub mod hook;
 pub mod util;
 
+pub mod c01;
+pub mod c02;
+pub mod c03;
+pub mod c04;
+pub mod c05;
+pub mod c06;
+pub mod c07;
+pub mod c08;
+pub mod c13;
 pub mod c14;
 pub mod c15;
 pub mod c16;
 pub mod c17;
+pub mod c18;
+pub mod c20;
